@@ -336,15 +336,22 @@ where
     where
         Sq: Data<Elem = Sd::Elem>,
     {
-        Zip::from(xs)
-            .and(buffer.axis_iter_mut(Axis(0)))
-            .fold_while(Ok(()), |_, &x, buf| {
-                match self.strategy.interp_into(self, buf, x) {
-                    Ok(_) => ndarray::FoldWhile::Continue(Ok(())),
-                    Err(e) => ndarray::FoldWhile::Done(Err(e)),
-                }
-            })
-            .into_inner()
+        // the lanes of the buffer are checked by the strategy, one query at a time.
+        // For an empty query that never happens, so the lane shape is checked here as well
+        let lanes_match = buffer.shape()[1..] == self.data.shape()[1..];
+        let zip = Zip::from(xs).and(buffer.axis_iter_mut(Axis(0)));
+        assert!(
+            lanes_match,
+            "the buffer has the wrong shape. expected lanes: {:?}",
+            &self.data.shape()[1..]
+        );
+        zip.fold_while(Ok(()), |_, &x, buf| {
+            match self.strategy.interp_into(self, buf, x) {
+                Ok(_) => ndarray::FoldWhile::Continue(Ok(())),
+                Err(e) => ndarray::FoldWhile::Done(Err(e)),
+            }
+        })
+        .into_inner()
     }
 
     /// the required shape of the buffer when calling [`interp_array_into`]
